@@ -319,7 +319,15 @@ def check_blocking(repo: Repo, rep: Report):
                                 line=node.lineno)
                 bf = nx.get(base, {}).get(meth)
                 if bf is not None and direct_structure_writes(bf):
-                    rebinds = {t.attr for a in walk_no_nested(fn) if isinstance(a, ast.Assign) for t in a.targets
+                    # the indexes may be re-created by the method itself or by a helper it calls on self
+                    bodies, seen = [fn], {name}
+                    for _ in range(3):
+                        for b in list(bodies):
+                            for c in ns.self_calls(b):
+                                if c not in seen and c in ns.defs and ns.origin.get(c) == cls:
+                                    seen.add(c)
+                                    bodies.append(ns.defs[c])
+                    rebinds = {t.attr for b in bodies for a in walk_no_nested(b) if isinstance(a, ast.Assign) for t in a.targets
                                if isinstance(t, ast.Attribute) and isinstance(t.value, ast.Name) and t.value.id == "self"}
                     ok_idx = {"time_to_edge", "snapshots"} <= rebinds
                     rep.ob("B4.basecall", construct, "structure emptied through the base class => both temporal indexes re-created", ok=ok_idx)
